@@ -3,6 +3,8 @@
 (*                                                                                              *)
 (* From the docstrings of ioflo/aio/proto/stacking.py:                                          *)
 (*   transmit(pkt, ha)   "Pack and Append (pkt, ha) duple to .txPkts deque"                     *)
+(*   GramStack(txPkts =  "deque of duples to hold packet to be transmitted and destination ha   *)
+(*                        if any", likewise rxPkts, txMsgs, rxMsgs): queues supplied by the caller *)
 (*   serviceTxPkts       "Service the .txPkts deque to send packets through server"             *)
 (*   serviceTxPktsOnce   "Service .txPkts deque once (one pkt)"                                 *)
 (*   _serviceOneTxPkt    "laters is deque of packed packets to try again later; blockeds is     *)
@@ -39,8 +41,13 @@ vars == <<dst, queue, sent, passes, last>>
 Init == /\ dst = <<>> /\ queue = <<>> /\ sent = <<>> /\ passes = 0
         /\ last = [a |-> "Init"]
 
-\* the application queues one more packet for destination d
-Transmit(d) ==
+\* the application queues one more packet for destination d.  via: through the stack's transmit(pkt, ha), or by appending
+\* the (pkt, ha) duple to the deque the application handed to the constructor as txPkts ("txPkts is deque of duples to
+\* hold packet to be transmitted and destination ha if any": the stack uses that very deque, so the application may go on
+\* sharing it).  The statement does not care which reference is used: both are the same action.
+Vias == {"stack", "deque"}
+Transmit(d, via) ==
+    /\ via \in Vias
     /\ Len(dst) < MaxPkts
     /\ dst' = Append(dst, d)
     /\ queue' = Append(queue, Len(dst) + 1)
@@ -79,7 +86,7 @@ Once(ok) ==
     /\ last' = [a |-> "Once", ok |-> ok]
     /\ UNCHANGED dst
 
-Next == \/ \E d \in Dests : Transmit(d)
+Next == \/ \E d \in Dests, via \in Vias : Transmit(d, via)
         \/ \E F \in [Dests -> 0..MaxPkts] : Pass(F)
         \/ \E ok \in BOOLEAN : Once(ok)
 Spec == Init /\ [][Next]_vars
